@@ -89,6 +89,12 @@ def base_recipe(rng, left: bool):
         rec["vars"].append({"name": "segm", "shape": "same"})
     if left or rng.random() < 0.5:
         rec["disparity"] = {"bands": ["min", "max"], "grid": rng.choice(["const", "ramp", "equal", "with_nan"]), "shape": "same"}
+        # storage type of the grids (seed C17-4: a difference taken in a narrow integer type wraps around)
+        rec["disparity"]["dtype"] = rng.choice(["float32", "float32", "float64", "int64", "int16", "int8", "uint8", "uint16"])
+        if rec["disparity"]["dtype"] != "float32" and rec["disparity"]["grid"] == "with_nan":
+            rec["disparity"]["grid"] = "const"
+        if rec["disparity"]["dtype"] == "int8" and rng.random() < 0.5:
+            rec["disparity"]["grid"] = "wide"
     return rec
 
 
@@ -185,9 +191,13 @@ def build_dataset(rec):
     if d is not None:
         r2 = rows + 1 if d["shape"] == "rows+1" else rows
         n = len(d["bands"]) if d["bands"] is not None else 2
-        lo = np.full((r2, cols), -2.0, dtype=np.float32)
-        hi = np.full((r2, cols), 2.0, dtype=np.float32)
+        dt = np.dtype(d.get("dtype", "float32"))
+        base = 40.0 if dt.kind == "u" else 0.0  # unsigned storage: an all-positive interval
+        lo = np.full((r2, cols), base - 2.0, dtype=np.float32)
+        hi = np.full((r2, cols), base + 2.0, dtype=np.float32)
         g = d["grid"]
+        if g == "wide":  # a legal interval wider than half the range of int8
+            lo[:], hi[:] = -100.0, 100.0
         if g == "ramp":
             lo = lo + np.arange(cols, dtype=np.float32)[None, :]
             hi = lo + 3
@@ -199,9 +209,9 @@ def build_dataset(rec):
         elif g == "inverted":
             lo, hi = hi, lo
         elif g == "one_bad":
-            lo[r2 // 2, cols // 2] = 5.0
+            lo[r2 // 2, cols // 2] = base + 5.0
         planes = [lo, hi] + [hi] * (n - 2)
-        arr = np.stack(planes[:n])
+        arr = np.stack(planes[:n]).astype(dt)
         dims = ["band_disp", "row_d" if r2 != rows else "row", "col"]
         if d["bands"] is not None:
             ds["disparity"] = xr.DataArray(arr, dims=dims, coords={"band_disp": d["bands"]})
@@ -325,9 +335,9 @@ for side in ("left", "right"):
             EDITS.append(((side, key), v))
     EDITS.append(((side, "unknown_key"), 1))
 for v in [[2, -2], [0, 0], [1], [], [1, 2, 3], [3, 2, 1], [1.0, 2.0], ["a", "b"], [True, 2], [None, 1], [2 ** 70, 2 ** 71], None, "<del>", 5, {},
-          "@grid_a", "@grid_bad", "@grid_bad_nodata", "@grid_ok_nodata", "@grid_b", "@grid_1band", "@grid_3band", "@missing", "@not_raster", "none", "NaN", [-3, 3]]:
+          "@grid_a", "@grid_bad", "@grid_bad_nodata", "@grid_ok_nodata", "@grid_u8_bad", "@grid_u16_bad", "@grid_u8_ok", "@grid_i8_wide", "@grid_i16_wide", "@grid_i16_bad", "@grid_b", "@grid_1band", "@grid_3band", "@missing", "@not_raster", "none", "NaN", [-3, 3]]:
     EDITS.append((("left", "disp"), v))
-for v in [None, "<del>", [-2, 2], [], 5, {}, "@grid_a_right", "@grid_bad", "@grid_bad_nodata", "@grid_ok_nodata", "@grid_b", "@grid_1band", "@missing", "none", True]:
+for v in [None, "<del>", [-2, 2], [], 5, {}, "@grid_a_right", "@grid_bad", "@grid_bad_nodata", "@grid_ok_nodata", "@grid_u8_bad", "@grid_u16_bad", "@grid_u8_ok", "@grid_i8_wide", "@grid_i16_wide", "@grid_i16_bad", "@grid_b", "@grid_1band", "@missing", "none", True]:
     EDITS.append((("right", "disp"), v))
 EDITS.append((("right", "img"), "@img_b"))
 EDITS.append((("left", "img"), "@img_b"))
